@@ -537,6 +537,8 @@ fn main() {
     let mut outcome_count: BTreeMap<String, u64> = BTreeMap::new();
     let mut sample: Option<J> = None;
     let mut levels = vec![];
+    let mut probes = 0u64;
+    let probe_levels = if ctx.quick() { 6 } else { 9 };
     for level in 0..depth {
         if ctx.stopped() || frontier.is_empty() {
             break;
@@ -553,6 +555,7 @@ fn main() {
             (hist, r)
         });
         let mut next = vec![];
+        let mut merged: Vec<(LState, Vec<Ev>)> = vec![];
         for (hist, r) in results {
             transitions += hist.len() as u64;
             traces += 1;
@@ -582,7 +585,40 @@ fn main() {
                     }
                     if seen.insert(canon(&r.state)) {
                         next.push((r.state, hist));
+                    } else {
+                        merged.push((r.state, hist));
                     }
+                }
+            }
+        }
+        // Differential probes: a history that ends in an already known model state is not expanded
+        // further, but every single next event is still executed from *this* history, so that
+        // implementation state the model (and the H3 snapshot) does not see - had it been left
+        // behind by this particular history - shows up as a disagreement one step later.
+        if level < probe_levels {
+            let probe_work: Vec<(Vec<Ev>, Ev)> = merged
+                .iter()
+                .flat_map(|(st, h)| st.enabled().into_iter().map(move |ev| (h.clone(), ev)))
+                .collect();
+            let probe_results = par_map(&probe_work, |_, (h, ev)| {
+                ctx.tick();
+                let mut hist = h.clone();
+                hist.push(*ev);
+                let r = run(&hist);
+                (hist, r.failure)
+            });
+            for (hist, failure) in probe_results {
+                probes += 1;
+                transitions += hist.len() as u64;
+                traces += 1;
+                if let Some((i, what)) = failure {
+                    let last = hist.last().map(|e| format!("{e:?}")).unwrap_or_default();
+                    let kind = last.split('(').next().unwrap_or("").to_string();
+                    ctx.violation(
+                        &format!("lifecycle:{kind}"),
+                        &format!("history {hist:?} (its prefix reaches a model state first reached by another history), step {i}: {what}"),
+                        J::obj().set("events", ev_json(&hist)),
+                    );
                 }
             }
         }
@@ -598,6 +634,8 @@ fn main() {
         .set("traces_validated_against_impl", traces)
         .set("exhaustive", !ctx.stopped())
         .set("depth", depth)
+        .set("differential_probes", probes)
+        .set("differential_probe_rule", format!("every history of length <= {probe_levels} that ends in an already known model state is extended by every single enabled event"))
         .set("levels", J::Arr(levels))
         .set("frontier_states_left_unexpanded_at_bound", frontier.len())
         .set("samples", J::Arr(sample.into_iter().collect()))
@@ -614,7 +652,7 @@ fn main() {
         "model_checking",
         cov,
         &[
-            "states are merged on the lifecycle model's state; the H3 instance() snapshot of every live instance is checked to equal it after every event, so merged states have the same implementation state",
+            "states are merged on the lifecycle model's state; the H3 instance() snapshot of every live instance is checked to equal it after every event, so merged states have the same *visible* implementation state; state the snapshot does not show is covered by the differential probes (one more event from every merged history up to the probe depth)",
             "transitions counts real events executed (histories are re-executed from scratch)",
             "report() on a clone is not in the alphabet (unspecified); std build only",
         ],
